@@ -762,8 +762,9 @@ impl<'a> Lexer<'a> {
                     let start_pos = self.cur;
                     while self.eat_char(|c| c.is_ascii_hexdigit()) {}
                     let end_pos = self.cur;
-                    let i = i64::from_str_radix(self.sub_string(start_pos, end_pos), 16).unwrap();
-                    Token::Integer(i)
+                    // Hexadecimal literals denote 64 bit patterns, e.g. `0xFFFFFFFFFFFFFFFF` is `-1`.
+                    let i = u64::from_str_radix(self.sub_string(start_pos, end_pos), 16).unwrap();
+                    Token::Integer(i as i64)
                 } else {
                     let start_pos = self.cur - 1;
                     let mut is_integer = true;
